@@ -55,7 +55,11 @@ def demoStep (s : Store) (toks : List String) : Store × String :=
   | ["reset", k] => (.leaf (Layer.empty (k = "file")), "ok")
   | ["begin", x, t] =>
     (match x.toNat?, tidArg t with
-     | some x, some t => doStep s (.begin x t)
+     | some x, some t => doStep s (.begin x (some t) 0)
+     | _, _ => (s, "bad-op"))
+  | ["begin", x, "-", now] =>          -- no explicit tid: the clock reads `now`
+    (match x.toNat?, tidArg now with
+     | some x, some now => doStep s (.begin x none now)
      | _, _ => (s, "bad-op"))
   | ["store", x, o, ser, d] =>
     (match x.toNat?, o.toNat?, tidArg ser, d.toNat? with
@@ -66,7 +70,17 @@ def demoStep (s : Store) (toks : List String) : Store × String :=
      | some x, some o, some ser => doStep s (.delete x o ser)
      | _, _, _ => (s, "bad-op"))
   | ["vote", x] => (match x.toNat? with | some x => doStep s (.vote x) | none => (s, "bad-op"))
-  | ["finish", x] => (match x.toNat? with | some x => doStep s (.finish x) | none => (s, "bad-op"))
+  | ["finish", x] =>
+    (match x.toNat? with
+     | some x =>
+       let staged := match s with
+         | .leaf l => l.staged
+         | .demo _ c _ => c.staged
+       let (s', o) := step s (.finish x)
+       (s', match o, staged with
+            | .ok, some (tid, _) => s!"ok tid={tidStr tid}"
+            | _, _ => outStr o)
+     | none => (s, "bad-op"))
   | ["abort", x] => (match x.toNat? with | some x => doStep s (.abort x) | none => (s, "bad-op"))
   | ["undo", x, u] =>
     (match x.toNat?, tidArg u with
